@@ -29,7 +29,9 @@ class Writer:
         elif isinstance(thing, str):
             if shelly and shell_quote:
                 thing, escaped = shell_quote(thing)
-            self.write_literal(thing)
+            # pkg-config treats `#` as the start of a comment, even inside
+            # quotes, unless it's escaped with a backslash.
+            self.write_literal(thing.replace('#', '\\#'))
         elif isinstance(thing, safe_str.jbos):
             for i in thing.bits:
                 escaped |= self.write(i, syntax, shell_quote)
